@@ -20,7 +20,8 @@ META = {
              "near-miss names) x cache sizes forcing 0/1/many evictions x sequential/parallel download, run against "
              "an executable reference model with harness-owned logical timestamps; the same history is also run "
              "sequentially and in parallel and compared. Non-trivial = history with >= 1 eviction that happens after "
-             ">= 1 hit; distinct = sha1 of the history."),
+             ">= 1 hit; distinct = sha1 of the history."
+             " The alphabet includes an empty (0-byte) resource."),
     "level_text": ("every generated history is replayed against the real FileCache on a fresh directory and against an "
                    "executable reference model; after every step returned paths/bytes, call log, directory listing, "
                    "entry count, size bound, LRU validity predicate and foreign files are compared. Thorough adds an "
